@@ -31,6 +31,8 @@ func main() {
 		os.Exit(cmdConc(args))
 	case "measure":
 		os.Exit(cmdMeasure(args))
+	case "extremes":
+		os.Exit(cmdExtremes(args))
 	case "run1":
 		os.Exit(cmdRun1(args))
 	default:
